@@ -1,2 +1,3 @@
 import XdsVerif.Model.Pick
+import XdsVerif.Model.Fqdn
 /-! Fact record types consumed by `Generated/Facts.lean` (one per model file), gathered here. -/
